@@ -322,3 +322,233 @@ Proof.
   apply env_eqb_eq in Ee. apply schema_eqb_eq in Es. subst re rs.
   eapply codec_roundtrip_fuel; eauto.
 Qed.
+
+(* ================================================================ converse direction: decode is injective
+   on byte strings, i.e. the only byte string that decodes to v (with rest r) is encode v ++ r *)
+
+Definition byte_list (bs : bytes) : Prop := Forall (fun b => b < 256) bs.
+
+Lemma byte_list_app : forall a b, byte_list (a ++ b) <-> byte_list a /\ byte_list b.
+Proof. intros. unfold byte_list. apply Forall_app. Qed.
+
+Lemma unle_bound : forall a, byte_list a -> unle a < 256 ^ N.of_nat (List.length a).
+Proof.
+  induction a as [|b a IH]; intros H; cbn [unle List.length].
+  - change (256 ^ N.of_nat 0) with 1. lia.
+  - inversion H; subst. specialize (IH H3). rewrite Nat2N.inj_succ, N.pow_succ_r'. lia.
+Qed.
+
+Lemma le_unle : forall a, byte_list a -> le (List.length a) (unle a) = a.
+Proof.
+  induction a as [|b a IH]; intros H; cbn [unle List.length le]; [reflexivity|].
+  inversion H; subst. specialize (IH H3).
+  assert (E1 : (b + 256 * unle a) mod 256 = b).
+  { pose proof (N.div_mod (b + 256 * unle a) 256). pose proof (N.mod_lt (b + 256 * unle a) 256). lia. }
+  assert (E2 : (b + 256 * unle a) / 256 = unle a).
+  { pose proof (N.div_mod (b + 256 * unle a) 256). pose proof (N.mod_lt (b + 256 * unle a) 256). lia. }
+  rewrite E1, E2.
+  now rewrite IH.
+Qed.
+
+Lemma take_inv : forall k bs a r, take k bs = Some (a, r) -> bs = a ++ r /\ List.length a = k.
+Proof.
+  intros k bs a r H. unfold take in H. destruct (k <=? List.length bs)%nat eqn:E; [|discriminate].
+  injection H as <- <-. apply Nat.leb_le in E. split; [symmetry; apply firstn_skipn | apply firstn_length_le; exact E].
+Qed.
+
+Lemma get_le_inv : forall k bs n r, byte_list bs -> get_le k bs = Some (n, r) ->
+  bs = le k n ++ r /\ n < 256 ^ N.of_nat k /\ byte_list r.
+Proof.
+  intros k bs n r B H. unfold get_le in H. destruct (take k bs) as [[a r']|] eqn:T; [|discriminate].
+  injection H as <- <-. apply take_inv in T as [-> L]. apply byte_list_app in B as [Ba Br].
+  subst k. rewrite le_unle by exact Ba. repeat split; [apply unle_bound; exact Ba | exact Br].
+Qed.
+
+
+
+Lemma find_tag_in_ctors : forall tag vs c t, find_tag tag vs = Some (c, t) -> In c (ctors_of vs).
+Proof.
+  induction vs as [|[[c' tag'] t'] vs IH]; intros c t H; cbn [find_tag ctors_of map] in *; [discriminate|].
+  destruct (tag =? tag'); [injection H as <- <-; now left | right; eapply IH; eauto].
+Qed.
+
+Lemma existsb_streqb_in : forall x l, existsb (String.eqb x) l = false -> ~ In x l.
+Proof.
+  intros x l H I. assert (existsb (String.eqb x) l = true)
+    by (apply existsb_exists; exists x; split; [auto | apply String.eqb_refl]). congruence.
+Qed.
+
+Lemma find_ctor_tag : forall tag vs c t,
+  nodup_strb (ctors_of vs) = true -> find_tag tag vs = Some (c, t) -> find_ctor c vs = Some (tag, t).
+Proof.
+  induction vs as [|[[c' tag'] t'] vs IH]; intros c t ND H; cbn [find_ctor find_tag ctors_of map nodup_strb] in *;
+    [discriminate|].
+  apply andb_true_iff in ND as [ND1 ND2]. apply negb_true_iff in ND1.
+  destruct (tag =? tag') eqn:E.
+  - injection H as <- <-. rewrite String.eqb_refl. apply N.eqb_eq in E. now subst.
+  - pose proof (find_tag_in_ctors _ _ _ _ H) as I.
+    destruct (String.eqb c c') eqn:E2.
+    + apply String.eqb_eq in E2; subst. exfalso. eapply existsb_streqb_in; eauto.
+    + apply IH; auto.
+Qed.
+
+Lemma find_tag_in : forall tag vs c t, find_tag tag vs = Some (c, t) -> In (c, tag, t) vs.
+Proof.
+  induction vs as [|[[c' tag'] t'] vs IH]; intros c t H; cbn [find_tag] in *; [discriminate|].
+  destruct (tag =? tag') eqn:E.
+  - injection H as <- <-. apply N.eqb_eq in E; subst. now left.
+  - right. now apply IH.
+Qed.
+
+Lemma resolve_cwf : forall e s s', cwf_envb e = true -> cwf_schemab s = true -> resolve e s = Some s' ->
+  cwf_schemab s' = true.
+Proof.
+  intros e s s' We Ws R. destruct s; cbn [resolve] in R; try (injection R as <-; exact Ws).
+  destruct (lookup name e) as [x|] eqn:L; [|discriminate].
+  assert (cwf_schemab x = true) as Wx.
+  { apply lookup_in in L. unfold cwf_envb in We. rewrite forallb_forall in We. apply (We (name, x) L). }
+  destruct x; try discriminate; injection R as <-; exact Wx.
+Qed.
+
+(* ---------------------------------------------------------------- list combinators, converse direction *)
+Lemma dec_enc_list : forall {A} (f : A -> option bytes) (g : bytes -> option (A * bytes)),
+  (forall b x r, byte_list b -> g b = Some (x, r) -> exists a, f x = Some a /\ b = a ++ r) ->
+  forall k b l r, byte_list b -> dec_list g k b = Some (l, r) ->
+    exists a, enc_list f l = Some a /\ b = a ++ r /\ List.length l = k.
+Proof.
+  intros A f g H. induction k; intros b l r B D; cbn [dec_list] in D.
+  - injection D as <- <-. exists []. repeat split.
+  - destruct (g b) as [[x b1]|] eqn:G; [|discriminate].
+    destruct (dec_list g k b1) as [[xs b2]|] eqn:D1; [|discriminate]. injection D as <- <-.
+    destruct (H _ _ _ B G) as [a [Fa ->]]. apply byte_list_app in B as [_ B1].
+    destruct (IHk _ _ _ B1 D1) as [a' [Fa' [-> L]]].
+    exists (a ++ a'). cbn [enc_list]. rewrite Fa. fold (enc_list f xs). rewrite Fa'.
+    repeat split; [now rewrite app_assoc | cbn [List.length]; now rewrite L].
+Qed.
+
+Lemma dec_enc_fields : forall (W : schema -> Prop) (f : value -> schema -> option bytes)
+    (g : schema -> bytes -> option (value * bytes)),
+  (forall t b x r, W t -> byte_list b -> g t b = Some (x, r) -> exists a, f x t = Some a /\ b = a ++ r) ->
+  forall fs b m r, Forall (fun ht => W (snd ht)) fs -> byte_list b -> dec_fields g fs b = Some (m, r) ->
+    exists a, enc_fields f m fs = Some a /\ b = a ++ r.
+Proof.
+  intros W f g H. induction fs as [|[h t] fs IH]; intros b m r Wf B D; cbn [dec_fields] in D.
+  - injection D as <- <-. exists []. split; reflexivity.
+  - inversion Wf as [|? ? Wt Wfs]; subst. cbn [snd] in Wt.
+    destruct (g t b) as [[x b1]|] eqn:G; [|discriminate].
+    destruct (dec_fields g fs b1) as [[m' b2]|] eqn:D1; [|discriminate]. injection D as <- <-.
+    destruct (H _ _ _ _ Wt B G) as [a [Fa ->]]. apply byte_list_app in B as [_ B1].
+    destruct (IH _ _ _ Wfs B1 D1) as [a' [Fa' ->]].
+    exists (a ++ a'). cbn [enc_fields fst snd]. rewrite String.eqb_refl, Fa. fold (enc_fields f m' fs).
+    rewrite Fa'. split; [reflexivity | now rewrite app_assoc].
+Qed.
+
+Lemma blob_inv : forall bs v r, byte_list bs -> dec_blob bs = Some (v, r) ->
+  exists l, v = VS l /\ with_len l (Some l) = Some (le 4 (nlen l) ++ l) /\ bs = (le 4 (nlen l) ++ l) ++ r.
+Proof.
+  intros bs v r B D. unfold dec_blob in D.
+  destruct (get_le 4 bs) as [[n b1]|] eqn:G; [|discriminate].
+  destruct (take (N.to_nat n) b1) as [[a b2]|] eqn:T; [|discriminate]. injection D as <- <-.
+  apply get_le_inv in G as [-> [Hn B1]]; [|exact B]. apply take_inv in T as [-> L].
+  assert (nlen a = n) as E by (unfold nlen; rewrite L; apply N2Nat.id).
+  exists a. split; [reflexivity|]. unfold with_len. rewrite E.
+  replace (n <? two32) with true by (symmetry; apply N.ltb_lt; exact Hn).
+  split; [reflexivity | now rewrite app_assoc].
+Qed.
+
+Local Opaque le.
+
+Theorem decode_encode : forall e, cwf_envb e = true ->
+  forall fuel s bs v r, cwf_schemab s = true -> byte_list bs -> decode e fuel s bs = Some (v, r) ->
+    exists a, encode e v s = Some a /\ bs = a ++ r.
+Proof.
+  intros e We. induction fuel as [|f IH]; intros s bs v r Ws B D; [discriminate|].
+  cbn [decode] in D.
+  destruct (resolve e s) as [s'|] eqn:R; [|discriminate].
+  pose proof (resolve_cwf _ _ _ We Ws R) as Ws'.
+  destruct s'.
+  - (* U8 *)
+    destruct (get_le 1 bs) as [[n b1]|] eqn:G; [|discriminate]. injection D as <- <-.
+    apply get_le_inv in G as [-> [Hn _]]; [|exact B].
+    exists (le 1 n). split; [|reflexivity]. cbn [encode]. rewrite R.
+    replace (n <? 256) with true by (symmetry; apply N.ltb_lt; exact Hn). now rewrite <- le_1 by exact Hn.
+  - (* U32 *)
+    destruct (get_le 4 bs) as [[n b1]|] eqn:G; [|discriminate]. injection D as <- <-.
+    apply get_le_inv in G as [-> [Hn _]]; [|exact B].
+    exists (le 4 n). split; [|reflexivity]. cbn [encode]. rewrite R.
+    now replace (n <? two32) with true by (symmetry; apply N.ltb_lt; exact Hn).
+  - (* U64 *)
+    destruct (get_le 8 bs) as [[n b1]|] eqn:G; [|discriminate]. injection D as <- <-.
+    apply get_le_inv in G as [-> [Hn _]]; [|exact B].
+    exists (le 8 n). split; [|reflexivity]. cbn [encode]. rewrite R.
+    now replace (n <? two64) with true by (symmetry; apply N.ltb_lt; exact Hn).
+  - (* NZ32 *)
+    destruct (get_le 4 bs) as [[n b1]|] eqn:G; [|discriminate].
+    destruct (0 <? n) eqn:Z; [|discriminate]. injection D as <- <-.
+    apply get_le_inv in G as [-> [Hn _]]; [|exact B].
+    exists (le 4 n). split; [|reflexivity]. cbn [encode]. rewrite R, Z.
+    now replace (n <? two32) with true by (symmetry; apply N.ltb_lt; exact Hn).
+  - (* I64 *)
+    destruct (get_le 8 bs) as [[n b1]|] eqn:G; [|discriminate]. injection D as <- <-.
+    apply get_le_inv in G as [-> [Hn _]]; [|exact B].
+    exists (le 8 n). split; [|reflexivity]. cbn [encode]. rewrite R.
+    now replace (n <? two64) with true by (symmetry; apply N.ltb_lt; exact Hn).
+  - (* F64 *)
+    destruct (get_le 8 bs) as [[n b1]|] eqn:G; [|discriminate].
+    destruct (is_nan n) eqn:Z; [discriminate|]. injection D as <- <-.
+    apply get_le_inv in G as [-> [Hn _]]; [|exact B].
+    exists (le 8 n). split; [|reflexivity]. cbn [encode]. rewrite R, Z.
+    now replace (n <? two64) with true by (symmetry; apply N.ltb_lt; exact Hn).
+  - (* Bool *)
+    destruct bs as [|b0 b1]; [discriminate|].
+    destruct b0 as [|p]; [injection D as <- <-; exists [0]; cbn [encode]; rewrite R; split; reflexivity|].
+    destruct p; try discriminate. injection D as <- <-. exists [1]. cbn [encode]. rewrite R. split; reflexivity.
+  - (* Str *)
+    destruct (blob_inv _ _ _ B D) as [l [-> [E ->]]].
+    exists (le 4 (nlen l) ++ l). split; [|reflexivity]. cbn [encode]. rewrite R. exact E.
+  - (* Bytes *)
+    destruct (blob_inv _ _ _ B D) as [l [-> [E ->]]].
+    exists (le 4 (nlen l) ++ l). split; [|reflexivity]. cbn [encode]. rewrite R. exact E.
+  - (* Fixed *)
+    destruct (take (N.to_nat n) bs) as [[a b1]|] eqn:T; [|discriminate]. injection D as <- <-.
+    apply take_inv in T as [-> L]. exists a. split; [|reflexivity]. cbn [encode]. rewrite R.
+    replace (nlen a =? n) with true; [reflexivity|]. symmetry. apply N.eqb_eq. unfold nlen. rewrite L. apply N2Nat.id.
+  - (* Seq *)
+    destruct (get_le 4 bs) as [[n b1]|] eqn:G; [|discriminate].
+    destruct (dec_list (decode e f s') (N.to_nat n) b1) as [[l b2]|] eqn:DL; [|discriminate]. injection D as <- <-.
+    apply get_le_inv in G as [-> [Hn B1]]; [|exact B].
+    destruct (dec_enc_list (fun x => encode e x s') (decode e f s')) with (k := N.to_nat n) (b := b1) (l := l) (r := b2)
+      as [a [Ea [-> L]]]; [|exact B1|exact DL|].
+    { intros b x r0 Bb Db. apply (IH s' b x r0); [exact Ws' | exact Bb | exact Db]. }
+    assert (nlen l = n) as E by (unfold nlen; rewrite L; apply N2Nat.id).
+    exists (le 4 n ++ a). split; [|now rewrite app_assoc]. cbn [encode]. rewrite R. unfold with_len. rewrite E, Ea.
+    now replace (n <? two32) with true by (symmetry; apply N.ltb_lt; exact Hn).
+  - (* Opt *)
+    destruct bs as [|b0 b1]; [discriminate|].
+    destruct b0 as [|p]; [injection D as <- <-; exists [0]; cbn [encode]; rewrite R; split; reflexivity|].
+    destruct p; try discriminate.
+    destruct (decode e f s' b1) as [[x b2]|] eqn:Dx; [|discriminate]. injection D as <- <-.
+    inversion B as [|? ? _ B1]; subst.
+    destruct (IH s' b1 x b2 Ws' B1 Dx) as [a [Ea ->]].
+    exists (1 :: a). cbn [encode]. rewrite R, Ea. split; reflexivity.
+  - (* Struct *)
+    destruct (dec_fields (decode e f) fs bs) as [[m b1]|] eqn:DF; [|discriminate]. injection D as <- <-.
+    cbn [cwf_schemab] in Ws'. rewrite forallb_forall in Ws'.
+    destruct (dec_enc_fields (fun t => cwf_schemab t = true) (fun x t => encode e x t) (decode e f))
+      with (fs := fs) (b := bs) (m := m) (r := b1) as [a [Ea ->]]; [| |exact B|exact DF|].
+    { intros t b x r0 Wt Bb Db. apply (IH t b x r0 Wt Bb Db). }
+    { rewrite Forall_forall. intros [h t] I. cbn [snd]. apply (Ws' _ I). }
+    exists a. cbn [encode]. rewrite R. split; [exact Ea | reflexivity].
+  - (* Enum *)
+    destruct bs as [|tag b1]; [discriminate|].
+    destruct (find_tag tag vs) as [[c t]|] eqn:Ft; [|discriminate].
+    destruct (decode e f t b1) as [[x b2]|] eqn:Dx; [|discriminate]. injection D as <- <-.
+    inversion B as [|? ? Htag B1]; subst.
+    cbn [cwf_schemab] in Ws'. apply andb_true_iff in Ws' as [ND Wvs]. rewrite forallb_forall in Wvs.
+    pose proof (Wvs _ (find_tag_in _ _ _ _ Ft)) as Wt. cbn beta iota in Wt.
+    destruct (IH t b1 x b2 Wt B1 Dx) as [a [Ea ->]].
+    exists (tag :: a). cbn [encode]. rewrite R, (find_ctor_tag tag vs c t ND Ft), Ea.
+    replace (tag <? 256) with true by (symmetry; apply N.ltb_lt; exact Htag). split; reflexivity.
+  - (* Ref: resolve never yields a name *)
+    exfalso. eapply resolve_not_ref; eauto.
+Qed.
